@@ -23,6 +23,10 @@ CLAIMED['C03'] = ('exploration', 'deterministic simulation: seeded concurrent co
     'Seeded search: 1-6 concurrent callers x commands from every registered class (values from field specs) and unregistered opcodes x host<->controller latency x controller capability subsets; directed procedure runs in link situations (peer advertising/silent/removed mid-procedure/cancel/unknown handle). Monitors: <=1 outstanding, exactly one Complete/Status per command with the right opcode, every awaitable resolves, accepted procedures conclude. Sampling, not proof.',
     'Trusted: the latency channels; HCI event parsing in the monitor; completion table written from Core Vol 4 Part E (DESIGN.md App. B). CIS set-up procedures are generated only as random commands, not as a directed situation.', 'DESIGN.md §5 C03')
 
+CLAIMED['C05'] = ('exploration', 'deterministic simulation: seeded buffer geometries, PDU sequences and fragment faults between two full stacks',
+    'Seeded search over ACL buffer length/count on both controllers x LE/BR-EDR x PDU length sequences (boundary family around k*F, 65531/65532/65535) in both directions x latency profiles, with legal re-fragmentation towards the receiving host and malformed fragment sequences (continuation without start, data beyond length, start over start, truncated start, stray continuation) injected between PDUs at host- and controller-side assemblers. Wire monitor on every host->controller ACL packet (length, PB flag, handle, in-flight<=count); receiver sees exactly the sent (cid,payload) sequence. ISO: every emitted fragment checked by an independent parser. Sampling, not proof.',
+    'Trusted: the refragmenter keeps the 4-byte L2CAP header in the start fragment (conservative reading); fragment sizes >= 27; ISO path uses a scripted sink because the virtual controller ignores ISO data.', 'DESIGN.md §5 C05')
+
 NOT_YET = {}
 
 
